@@ -18,11 +18,44 @@ class Env:
         self.seen = []        # framework-made exception objects: (obj, id)
         self.fin = ABSENT
         self.final = None
+        self.causes = {}      # exception id -> the object it was raised `from`
 
     def exc(self, i):
         if i not in self.objs:
             self.objs[i] = self.world.make_exc(i)
         return self.objs[i]
+
+    def throw(self, i):
+        """raise exception i the way its declaration says: plainly, `from` a cause, or while another exception is
+        being handled (implicit __context__)"""
+        e = self.exc(i)
+        kind = self.world.case['excs'][i].get('chain')
+        if kind == 'cause':
+            if i not in self.causes:
+                self.causes[i] = RuntimeError('c14-cause-%d' % i)
+            raise e from self.causes[i]
+        if kind == 'context':
+            try:
+                raise LookupError('c14-context-%d' % i)
+            except LookupError:
+                raise e
+        raise e
+
+    def chain_state(self, e):
+        """[the propagated object still carries the chaining information it was raised with]"""
+        i = getattr(e, 'c14_id', None)
+        if i is None:
+            return None
+        kind = self.world.case['excs'][i].get('chain')
+        if kind == 'cause':
+            want = (self.causes.get(i), True)
+        else:
+            want = (None, False)
+        got = (e.__cause__, bool(e.__suppress_context__))
+        if got[0] is want[0] and got[1] == want[1]:
+            return None
+        return [i, kind or 'plain', 'cause-' + ('kept' if got[0] is want[0] else 'changed'),
+                'suppress_context-%s' % got[1]]
 
     def note(self, obj, origin):
         if getattr(obj, 'c14_id', None) is not None:
@@ -79,6 +112,14 @@ def _env(request):
 
 def observer_factory(handler, registry):
     def observer(request):
+        if request.environ.get('c14.sub'):
+            # a subrequest sent through the tweens: observed at the outer level only (what its own excview tween
+            # makes is labelled as made there)
+            try:
+                return handler(request)
+            except BaseException as e:
+                _env(request).note(e, 'X')
+                raise
         env = _env(request)
         p = env.scn['preset']
         if p is not None:
@@ -102,6 +143,8 @@ def observer_factory(handler, registry):
 
 def probe_factory(handler, registry):
     def probe(request):
+        if request.environ.get('c14.sub'):
+            return handler(request)
         env = _env(request)
         try:
             resp = handler(request)
@@ -115,10 +158,28 @@ def probe_factory(handler, registry):
 
 def under_factory(handler, registry):
     def under(request):
+        if request.environ.get('c14.sub'):
+            try:
+                return handler(request)
+            except BaseException as e:
+                _env(request).note(e, 'H')
+                raise
         env = _env(request)
         prog = env.scn['under']
+        if prog[0] == 'sub':
+            # the handler is NOT called for this request: a fresh request for the same URL is dispatched through
+            # request.invoke_subrequest (use_tweens passed only when the program says so)
+            sub = env.world.request(env.scn['r'])
+            sub.environ['c14'] = env
+            sub.environ['c14.sub'] = True
+            kw = {} if prog[1] is None else {'use_tweens': bool(prog[1])}
+            try:
+                return request.invoke_subrequest(sub, **kw)
+            except BaseException as e:
+                env.note(e, 'H')
+                raise
         if prog[0] == 'raise':
-            raise env.exc(prog[1])
+            env.throw(prog[1])
         if prog[0] == 'retry':
             # the same request object dispatched twice: the second time to another (unrouted) path
             try:
@@ -163,7 +224,7 @@ def under_factory(handler, registry):
             else:
                 raise
         if prog[0] == 'catch' and prog[4] is not None:
-            raise env.exc(prog[4])
+            env.throw(prog[4])
         return resp
     return under
 
@@ -183,7 +244,7 @@ def root_factory(request):
     env = _env(request)
     r = env.scn['root_raise']
     if r is not None:
-        raise env.exc(r)
+        env.throw(r)
     return ROOT
 
 
@@ -205,9 +266,18 @@ class Policy:
         return []
 
 
-def make_body(tag, touch, act):
-    """act: ['ret'] | ['ctx'] | ['raise', exc id]"""
+def make_body(tag, touch, act, falsy=False):
+    """act: ['ret'] | ['ctx'] | ['raise', exc id]; falsy: the response object returned is falsy (empty body + __len__ /
+    __bool__)"""
     from pyramid.response import Response
+
+    class SizedResponse(Response):          # len(response) = size of the body: an empty one is falsy
+        def __len__(self):
+            return len(self.body)
+
+    class QuietResponse(Response):
+        def __bool__(self):
+            return False
     from pyramid.httpexceptions import default_exceptionresponse_view
 
     def body(context, request):
@@ -217,12 +287,12 @@ def make_body(tag, touch, act):
         if touch:
             request.response.headers['X-C14-Resp'] = str(tag)
         if act[0] == 'ret':
-            resp = Response('ok')
+            resp = (SizedResponse(b'') if tag % 2 else QuietResponse('ok')) if falsy else Response('ok')
             resp.headers['X-C14-Tag'] = str(tag)
             return resp
         if act[0] == 'ctx':
             return default_exceptionresponse_view(context, request)
-        raise env.exc(act[1])
+        env.throw(act[1])
     body.c14_tag = tag
     return body
 
